@@ -736,3 +736,100 @@ Print Assumptions C09_collect_every_backend.
 Print Assumptions C09_write_into_buffer.
 Print Assumptions C09_try_collect.
 Print Assumptions C09_winsorize_well_formed.
+
+(* ==== MapValidBasic::drop_none (tea-map/src/valid_iter.rs: `self.filter(T::not_none)`) — Model/IterAudit.v `drop_none`
+   (the bare std Filter node under the audit above, nothing on top: the result is `impl Iterator`, NOT a TrustedLen),
+   Proofs/LooseEnds.v.  `after_valid k xs` = the source items behind the k-th non-null one (what the filter has not
+   pulled yet after k calls of next()).  Interpreter: Run/RunC09.v `obs_drop_none`; cases: c09.rs section N. ============ *)
+From Tevec Require Import Proofs.LooseEnds.
+Local Open Scope nat_scope.
+
+(* (20) drop_none yields exactly the non-null items of its receiver, in order — as one equation, at every point of the
+        consumption, per call (the first non-null item left, or None), and spelled out: a subsequence of the source,
+        containing x iff x is a non-null source item, of length count_valid *)
+Theorem C09_drop_none_items :
+  forall (s : it), wfb false s ->
+    f_drain (drop_none s) = filter not_none (elems s)
+    /\ (forall k, f_drain (f_consume k (drop_none s)) = skipn k (filter not_none (elems s)))
+    /\ fst (f_next (drop_none s)) = hd_error (filter not_none (elems s))
+    /\ f_drain (snd (f_next (drop_none s))) = tl (filter not_none (elems s))
+    /\ subseq (f_drain (drop_none s)) (elems s)
+    /\ (forall x, In x (f_drain (drop_none s)) <-> In x (elems s) /\ not_none x = true)
+    /\ length (f_drain (drop_none s)) = count_valid (elems s).
+Proof.
+  intros s Hw. split; [apply drop_none_items; exact Hw|]. split; [intros k; apply drop_none_items_consume; exact Hw|].
+  split; [apply drop_none_next; exact Hw|]. split; [apply drop_none_next; exact Hw|]. apply drop_none_spec. exact Hw.
+Qed.
+
+(* ... and `filter not_none` is not the implementation restated: ANY subsequence of the source whose items are all
+   non-null and that is as long as the number of non-null source items is that list *)
+Theorem C09_drop_none_items_characterised :
+  forall (s : it) (l : list val), wfb false s ->
+    subseq l (elems s) -> (forall x, In x l -> not_none x = true) -> length l = count_valid (elems s) ->
+    l = f_drain (drop_none s).
+Proof.
+  intros s l Hw Hs Hall Hlen. rewrite (drop_none_items s Hw). apply subseq_filter_unique; assumption.
+Qed.
+
+(* (21) its size hint, after ANY number k of next() calls: lower bound 0; upper bound = the number of SOURCE items still
+        to come (a suffix of the source: nulls included), never fewer than it goes on to yield, and equal to that exactly
+        when no null is left in the source *)
+Theorem C09_drop_none_hint_is_only_a_bound :
+  forall (k : nat) (s : it), wfb false s ->
+    f_size_hint (f_consume k (drop_none s)) = (0, Some (length (after_valid k (elems s))))
+    /\ (exists pre, elems s = pre ++ after_valid k (elems s))
+    /\ length (f_drain (f_consume k (drop_none s))) <= length (after_valid k (elems s))
+    /\ (length (f_drain (f_consume k (drop_none s))) = length (after_valid k (elems s))
+        <-> forall x, In x (after_valid k (elems s)) -> not_none x = true).
+Proof. exact drop_none_hint. Qed.
+
+(* the state after k calls is again a drop_none, of the source advanced behind the k-th non-null item *)
+Theorem C09_drop_none_after_consumption :
+  forall (k : nat) (s : it), wfb false s ->
+    exists s', f_consume k (drop_none s) = drop_none s' /\ wfb false s' /\ elems s' = after_valid k (elems s).
+Proof. exact drop_none_consume. Qed.
+
+(* (22) idempotent (the result has to be collected before drop_none applies again: it is not a TrustedLen) *)
+Theorem C09_drop_none_idempotent :
+  forall (s : it), wfb false s ->
+    f_drain (drop_none (IList (f_drain (drop_none s)))) = f_drain (drop_none s).
+Proof. exact drop_none_idempotent. Qed.
+
+(* (23) on a null-free receiver: the identity on items, at every point; the upper bound is then the exact count (the
+        lower bound is still 0: the type never becomes a TrustedLen) *)
+Theorem C09_drop_none_null_free_is_identity :
+  forall (s : it), wfb false s -> (forall x, In x (elems s) -> not_none x = true) ->
+    f_drain (drop_none s) = elems s
+    /\ forall k, f_drain (f_consume k (drop_none s)) = skipn k (elems s)
+                 /\ f_size_hint (f_consume k (drop_none s)) = (0, Some (length (skipn k (elems s)))).
+Proof. exact drop_none_null_free. Qed.
+
+(* non-vacuity: nulls in front / between / behind; the hint after each call (3 source items left after the first item
+   although only 1 will come); all null; null-free; a pre-consumed, mapped receiver *)
+Example C09_drop_none_examples :
+  let xs := [VNull; VZ 1; VNull; VNull; VZ 2; VNull] in
+  f_drain (drop_none (IList xs)) = [VZ 1; VZ 2]
+  /\ f_size_hint (drop_none (IList xs)) = (0, Some 6)
+  /\ f_size_hint (f_consume 1 (drop_none (IList xs))) = (0, Some 4)
+  /\ f_drain (f_consume 1 (drop_none (IList xs))) = [VZ 2]
+  /\ f_size_hint (f_consume 2 (drop_none (IList xs))) = (0, Some 1)
+  /\ f_size_hint (f_consume 3 (drop_none (IList xs))) = (0, Some 0)
+  /\ after_valid 1 xs = [VNull; VNull; VZ 2; VNull]
+  /\ f_drain (drop_none (IList [VNull; VNull])) = [] /\ f_size_hint (drop_none (IList [VNull; VNull])) = (0, Some 2)
+  /\ f_size_hint (f_consume 1 (drop_none (IList [VNull; VNull]))) = (0, Some 0)
+  /\ f_drain (drop_none (IList [VZ 4; VZ 5])) = [VZ 4; VZ 5]
+  /\ f_size_hint (f_consume 1 (drop_none (IList [VZ 4; VZ 5]))) = (0, Some 1)
+  /\ wfb false (mabs (consume [false; true] (IList xs)))
+  /\ f_drain (drop_none (mabs (consume [false; true] (IList (VZ 0 :: VZ (-1) :: xs))))) = [VZ 1; VZ 1; VZ 2]
+  /\ subseq [VZ 1; VZ 2] xs /\ count_valid xs = 2.
+Proof.
+  cbv zeta. repeat split; try (vm_compute; reflexivity).
+  apply sub_skip, sub_take, sub_skip, sub_skip, sub_take, sub_skip, sub_nil.
+Qed.
+
+Print Assumptions C09_drop_none_items.
+Print Assumptions C09_drop_none_items_characterised.
+Print Assumptions C09_drop_none_hint_is_only_a_bound.
+Print Assumptions C09_drop_none_after_consumption.
+Print Assumptions C09_drop_none_idempotent.
+Print Assumptions C09_drop_none_null_free_is_identity.
